@@ -713,17 +713,34 @@ def compare(mon, pair, ra, rm, case_no, sticky_possible):
         tol = MR.ESTIMATE if est else MR.EXACT
         scale = None
         rkey = ("pending-" + str(oa.unit)) if oa.kind == "pending" else oa.unit
-        near = pair.price_mode != "on-tick" and oa.kind in ("amt", "est") and oa.unit in ("base", "quote")
+        offgrid = pair.price_mode != "on-tick"
+        near = offgrid and oa.kind in ("amt", "est", "wallet", "pending") and oa.unit in ("base", "quote")
         if oa.kind in ("wallet", "pending") or near:
             # in the worlds whose prices come within a tick of a range bound the vanishing token of a position is L x (a
             # difference of two nearly equal integer sqrt prices): its own relative precision is that of the integer grid
             # (1e-10 at tick -270000), and what is later traded out of such a remainder inherits it; there every amount is
             # measured, like a wallet balance, against the largest amount of its token seen so far
             scale = runmax.get(rkey)
+            if near:
+                # ... expressed in this token: a wallet that never held the base token still makes a position whose base
+                # leg is a vanishing share of the quote it put in
+                bar_s = oa.label.split("/")[0]
+                if bar_s.isdigit():
+                    p_bar = MR.frac(MR.base_price_of_tick_a(pair.price_tick[int(bar_s)], pair.dq, pair.db))
+                    other = max(runmax.get("quote" if oa.unit == "base" else "base") or 0,
+                                runmax.get("pending-quote" if oa.unit == "base" else "pending-base") or 0)
+                    own = max(runmax.get(oa.unit) or 0, runmax.get("pending-" + str(oa.unit)) or 0)
+                    scale = max(scale or 0, own, other / p_bar if oa.unit == "base" else other * p_bar)
             if oa.field == "pending_value":  # = pending base * price + pending quote
                 bar_s = oa.label.split("/")[0]
                 p_bar = MR.base_price_of_tick_a(pair.price_tick[int(bar_s)], pair.dq, pair.db)
                 scale = runmax["pending-quote"] + runmax["pending-base"] * MR.frac(p_bar)
+        elif offgrid and oa.unit == "liq" and oa.meta and "range" in oa.meta:
+            # likewise a liquidity figure: against the liquidity that the gross holdings seen so far would be in its own range
+            bar_s = oa.label.split("/")[0]
+            if bar_s.isdigit():
+                p_bar = MR.base_price_of_tick_a(pair.price_tick[int(bar_s)], pair.dq, pair.db)
+                scale = max(runmax.get(rkey) or 0, MR.liquidity_of_value_a(_gross_value(runmax, p_bar), pair.dq, oa.meta["tick"], *oa.meta["range"]))
         elif tolclass == "estimate" and oa.unit in ("base", "quote", "liq"):
             # the state reached through an estimate-based helper is only known to 0.1 % of the gross amounts: from
             # the step after the first add_liquidity_by_value on, everything is measured against the largest figure
